@@ -738,7 +738,10 @@ def _csd(fr, args, kwargs):
     nf = sym.add(sym.floordiv(nfft, 2), 1)
     fs = sym.toF(v["fs"])
     axes, rx, ry = _lead_broadcast(x, y)
-    encs = [_enc(fs), _enc(v["window"]), _enc(nper), _enc(v["noverlap"]), _enc(nfft), _enc(v["detrend"]),
+    # scipy: noverlap=None means nperseg // 2; any number is truncated with int() - one canonical integer either way
+    nov = v["noverlap"]
+    nov = sym.floordiv(nper, 2) if nov is None else (nov if is_int(nov) else sym.to_int(nov))
+    encs = [_enc(fs), _enc(v["window"]), _enc(nper), _enc(nov), _enc(nfft), _enc(v["detrend"]),
             _enc(v["scaling"]), _enc(v["average"])]
     sorts = [N.SerSort, N.SerSort] + [e.sort() for e in encs] + [z3.IntSort()]
     f_re = sym.ufun("scipy.csd.re", *sorts, z3.RealSort())
